@@ -38,6 +38,8 @@ def steps_virtual(case, pick):
           "cache": cfg["cache"], "schedule": [_op(h["o"], n) for h in case["steps"]]}
     if cfg["mode"] == "wrongform":
         st["alt"] = WRONG
+    if cfg["mode"] == "bad_first":
+        st["alt"] = {"c": "Numpy", "dt": "b", "d": [1]}
     if pick([0, 0, 1]) == 1:
         st["wrap_offsets"] = [0, n] if pick([0, 1]) else [0, 0, n]
     return [st]
